@@ -202,6 +202,26 @@ def wrappers(run, F, E):
                key='cancelPendingTransition has other effects')
 
 
+def veto_takes(run, F, rule='C03.e'):
+    """a veto always takes: whatever state (or the root head, origin = the invalid id) calls cancelPendingTransition(), and whatever the
+    flag was, the cancellation flag is set when it returns -- decided by evaluating the function on the comparison domain of the
+    origin id; the guard wrappers' verdicts above assume exactly this of a user callback that cancels"""
+    from lint import cmpdomain
+    from lint.cmpdomain import Obj
+    for fn in F.find('GuardControlT', 'cancelPendingTransition'):
+        for flag0 in (False, True):
+            def run_eval(ev, vals, fn=fn, flag0=flag0):
+                this = Obj(_cancelled=flag0, _originId=vals['origin'], _core=Obj(logger=0, context=Obj()))
+                try:
+                    ev.call(fn, this, [])
+                except cmpdomain.NotPure as x:
+                    raise AnalysisBroken('cancelPendingTransition is not evaluable: %s' % x)
+                return this['_cancelled']
+            ok, bad, cells, consts = cmpdomain.decide(F, run_eval, ['origin'], lambda origin: True)
+            run.ob(rule, 'cancelPendingTransition() sets the cancellation flag for every calling state, the root head included (flag before: %s; %d cells, constants %s)' % (flag0, cells, consts),
+                   ok, where=fn.pat, detail=bad, key='a veto does not always take: cancelPendingTransition() can return without cancelling')
+
+
 def reach_rules(run, F, E):
     for name in ('cancelledByGuards', 'cancelledByEntryGuards'):
         for fn in F.find('R_', name):
@@ -231,6 +251,7 @@ def run(run):
             run.count('fact units')
             run.guard('wrappers', wrappers, run, F, E)
             run.guard('reach rules', reach_rules, run, F, E)
+            run.guard('veto takes', veto_takes, run, F)
             facts.drop(F)
             cfgmod.clear_cache()
     run.floor('C03.a', 100)
